@@ -437,7 +437,7 @@ impl Node for BuiltInOp {
             BuiltInOp::Sub(a, b) => BuiltInOp::Sub(a.apply(visitor)?, b.apply(visitor)?),
             BuiltInOp::Concat(a, b) => BuiltInOp::Concat(a.apply(visitor)?, b.apply(visitor)?),
             BuiltInOp::Negate(x) => BuiltInOp::Negate(x.apply(visitor)?),
-            BuiltInOp::Property(x, i) => BuiltInOp::Property(x.apply(visitor)?, i),
+            BuiltInOp::Property(x, i) => BuiltInOp::Property(x.apply(visitor)?, i.apply(visitor)?),
         };
 
         Ok(visited)
